@@ -135,7 +135,7 @@ func c15InviteCheck(ctx *vfCtx, c c15InviteCase) {
 	gMember := typ == "m.room.member"
 	gInvite := membership == "invite"
 	gRoom := evStr(ev, "room_id") == c.ReqRoom
-	gSigned := raValidUserID(sender) && c15SignedBy(c.Version, ev, c15Domain(sender), c.Keys)
+	gSigned := c15UserOK(sender) && c15SignedBy(c.Version, ev, c15Domain(sender), c.Keys)
 	gNotJoined := !(c.Known && c.Existing == "join")
 	guards := []struct {
 		ok   bool
@@ -233,7 +233,7 @@ func c15InviteGen(t *rapid.T) c15InviteCase {
 	sigFault := ""
 	nf := rapid.SampledFrom([]int{0, 0, 1, 1, 1, 1, 2}).Draw(t, "nFaults")
 	for i := 0; i < nf; i++ {
-		f := rapid.SampledFrom([]string{"type", "type", "membership", "state-key", "room", "sig", "sig", "joined", "querier", "no-state"}).Draw(t, "fault")
+		f := rapid.SampledFrom([]string{"type", "type", "membership", "state-key", "room", "sig", "sig", "sender-malformed", "joined", "querier", "no-state"}).Draw(t, "fault")
 		c.Faults = append(c.Faults, f)
 		switch f {
 		case "type":
@@ -258,6 +258,8 @@ func c15InviteGen(t *rapid.T) c15InviteCase {
 			}
 		case "sig":
 			sigFault = rapid.SampledFrom(c15SigFaults).Draw(t, "sigFault")
+		case "sender-malformed":
+			sender = rapid.SampledFrom([]string{"rita:remote.example", "@rita", "remote.example"}).Draw(t, "badSender")
 		case "joined":
 			c.Known, c.Existing = true, "join"
 		case "querier":
@@ -283,9 +285,13 @@ func c15InviteGen(t *rapid.T) c15InviteCase {
 	}
 	e := raEv{Type: typ, Sender: sender, Room: evRoom, StateKey: stateKey, Content: content,
 		Prev: []string{c15FakeEventID(c.Version, "prev")}, Auth: []string{c15FakeEventID(c.Version, "auth1"), c15FakeEventID(c.Version, "auth2")},
-		Depth: 9, TS: c15TS, ID: "$c15invite:" + c15Domain(sender)}
+		Depth: 9, TS: c15TS, ID: "$c15invite:" + c15Remote}
 	ev := raJSON(c.Version, e)
-	ev, c.Keys = c15ApplySigFault(c.Version, ev, c15Domain(sender), sigFault)
+	signer := c15Domain(sender)
+	if signer == "" {
+		signer = c15Remote
+	}
+	ev, c.Keys = c15ApplySigFault(c.Version, ev, signer, sigFault)
 	c.Event = vfBytes(jplain(ev))
 	return c
 }
@@ -312,7 +318,7 @@ type c15InviteV3Case struct {
 
 func c15PseudoID(label string) (string, ed25519.PrivateKey) {
 	pub, priv := vfKeyFor("c15:pseudo:" + label)
-	return base64.RawURLEncoding.EncodeToString(pub), priv
+	return base64.RawStdEncoding.EncodeToString(pub), priv
 }
 
 func c15InviteV3Check(ctx *vfCtx, c c15InviteV3Case) {
@@ -461,8 +467,8 @@ func c15InviteV3Gen(t *rapid.T) c15InviteV3Case {
 func init() {
 	vfRapid("C15/invite",
 		"non-trivial = at most one of the guards (member event, membership invite, room matches, validly signed by the sender's server, not already joined) is violated; distinct = distinct Case JSON",
-		1200, 30000, 8, c15InviteGen, c15InviteCheck)
+		2000, 60000, 8, c15InviteGen, c15InviteCheck)
 	vfRapid("C15/invite-v3",
 		"non-trivial = at most one of the guards (member event, membership invite, room matches, not already joined) is violated; distinct = distinct Case JSON",
-		300, 5000, 2, c15InviteV3Gen, c15InviteV3Check)
+		400, 8000, 2, c15InviteV3Gen, c15InviteV3Check)
 }
